@@ -7,13 +7,13 @@ CHECKS = {
          "Held on the executions explored: every unary wrapper over every inner view, every combinator over every pair, PFE/EFT in both slots, random triples and random trees with Probe leaves, three scalars. Exploration is the right level: the property is a relation between observable executions of the real code and the space (views x views x N x inputs) is sampled, not enumerable.",
          "harness Dyn/Script/Probe/Tap views; release profile; trials cut at the first non-finite inner output"),
  "C02": ("reference-model monitor: batch definitions over the last min(t,N) values evaluated from the recorded history in exact rational arithmetic; real code run at the exact scalar (equality at every step) and at f64 (a-priori rounding envelope)",
-         "Held on the executions explored: 10 views x N grid x 18 input classes (ties, zeros, negatives, spikes entering/leaving, evictions of the current extremum, flat windows, zero bases - counted by the oracle) at both scalars, incl. the mean()/variance() getters.",
+         "Held on the executions explored: 10 views x N grid x 18 input classes (ties, zeros, negatives, spikes entering/leaving, evictions of the current extremum, flat windows, zero bases - counted by the oracle) at both scalars, incl. the mean()/variance() getters, plus long-history trials (2600-6000 values, windows up to 250).",
          "sample std of one value = 0; f64 Vst/Vsct steps with std inside the rounding envelope are left to C16"),
  "C03": ("relational monitor: two instances fed different prefixes (0..20N values, up to 2^40 x larger) and a common suffix; outputs compared from the K-th suffix value on, exactly at the exact scalar, within the envelope at f64",
-         "Held on the executions explored: all 17 listed views x N grid x 6 prefix styles x 4 suffix classes.",
+         "Held on the executions explored: all 17 listed views x N grid x 6 prefix styles (lengths up to 4200 values) x 4 suffix classes.",
          "documented hold steps (MyRSI flat window, Roc zero base) are identified by the exact oracle and skipped"),
  "C04": ("clause monitors (interval, constant, monotone, affine, defining recursion / kernel) on Sma, Ema, Alma at the exact scalar (exact inequalities and equalities) and at f64 (envelope)",
-         "Held on the executions explored: default and custom alpha / sigma / offset, N grid, input classes with exact zeros and sign changes.",
+         "Held on the executions explored: default and custom alpha / sigma / offset, N grid, input classes with exact zeros and sign changes; the views sit over a Script inner view that delivers nothing for 0-3 updates while the raw inputs are unrelated noise.",
          "Alma: both weight-assignment readings the statements admit are accepted"),
  "C05": ("reference-model monitor: gains/losses over the N most recent values from the recorded history in exact arithmetic; equality at the exact scalar, negation relation, conditioning-aware tolerance at f64",
          "Held on the executions explored: Rsi and MyRSI x N grid x 12 input classes.",
@@ -36,7 +36,7 @@ CHECKS = {
  "C11": ("reference-model monitor: batch re-evaluation of the difference equations (closed-form coefficients from the statement) from the complete input history, compared after every update at f64 (long streams) and at the exact scalar (short streams; hold branches exact), tolerance 1e-4 of natural scale",
          "Held on the executions explored: nine views x N from each minimum to 64 + {200, 1000} x gamma / smoother-length / MA grids x 10 input classes.",
          "crate conventions as named in the statement; 1.414 pi == 4.4422; f64 ratio steps with the reference denominator in rounding noise are skipped (counted)"),
- "C12": ("relational monitor over two executions x and a x + b / a x / -x for 37 (view, relation) pairs: exact scalar with arbitrary rational a, b (equality), f64 with a = 2^k and dyadic b (bit identity), f64 general (tolerance on well-conditioned windows)",
+ "C12": ("relational monitor over two executions x and a x + b / a x / -x for 37 (view, relation) pairs: exact scalar with arbitrary rational a, b (equality), f64 with a = 2^k for k from -60 to 60 and dyadic b (bit identity), f64 general (tolerance on well-conditioned windows)",
          "Held on the executions explored: all views of the statement's three lists x N grid x 8 input classes with ties.",
          "flat windows exempt only for Vst (returns the value) and Rsi under negation (returns 100)"),
  "C13": ("reference-model monitor: exact integer-scaled running sums (i128), running peak and largest relative decline, ln ratio; exact scalar (equality) and f64 at every step of streams of L, 4L, 16L values with one tolerance",
@@ -51,11 +51,11 @@ CHECKS = {
  "C16": ("f64 (and f32) executions compared with exact arithmetic: exact batch oracle over the recent inputs for windowed views, fresh-restart f64 instance on the last S(N) inputs for recursive views; drift clause on long three-decade streams at 200+ checkpoints, flat clause after volatile prefixes",
          "Held on the executions explored except for the recorded Vst/Vsct known findings: 25 views x N grid, streams of 1e5 (quick) / 1e6 (thorough) values, dyadic and non-dyadic grids, flat values incl. 0.1 and 1/3.",
          "natural scale per output class as stated in the evidence; WelfordRolling's drift is decided by C13"),
- "C17": ("relational runtime monitor: twin instances, extra last() calls, clones with divergent continuations, twin on another thread; bit identity",
+ "C17": ("relational runtime monitor: twin instances, extra and omitted last() calls, clones (also taken during warm-up) with divergent continuations, twin on another thread; bit identity",
          "Held on the executions explored: all views and random chains, random clone points, three interleavings of original and clone.",
          "Add has no Clone (clone clause vacuous there); release profile"),
  "C18": ("resource meter: counting global allocator in the harness, live bytes owned by the instance sampled after L, 4L, 16L updates",
-         "Held on the executions explored: every view x N grid, PFE/EFT with each MA, random chains; bytes(4L) <= bytes(L) and bytes(16L) <= bytes(L) as exact integer comparisons (16L up to 4e6 in thorough). Restates 'bound independent of length'; a growth slower than one capacity doubling per 16x length would escape.",
+         "Held on the executions explored: every view x N grid, PFE/EFT with each MA, random chains, seven input modes (noise, constant, ties, flat stretches, saw-tooth, rising and falling ramps); bytes(4L) <= bytes(L) and bytes(16L) <= bytes(L) as exact integer comparisons (16L up to 4e6 in thorough). Restates 'bound independent of length'; a growth slower than one capacity doubling per 16x length would escape.",
          "f64, release profile; bytes requested on the driving thread"),
 }
 DESIGN_REF = {k: "DESIGN.md section 3, " + k for k in CHECKS}
